@@ -4,6 +4,8 @@
 // libc, so due times follow the virtual clock while hypersleep (CLOCK_MONOTONIC) stays real.
 // clock_nanosleep is wrapped only to count the timer thread's sleeps: the timer thread sleeps only
 // when nothing is due, so "two sleeps begun after an advance" means everything due has run.
+// The timer thread is recognised by interposing pthread_create around Timer::start() (other threads
+// of the process - fix8's global logger polls every 200 us - sleep too and must not be counted).
 //
 // Commands:  new <granularity ms> [exact] | sched <id> <delay ms> <repeat 0/1> <q> [slow ms] | adv <ms> <wait 0/1>
 //            | clear | end | quit          (q: the callback returns true q-1 times, then false;
@@ -35,6 +37,8 @@ std::atomic<bool> g_virtual{false};
 std::atomic<long> g_sleeps{0};
 pthread_t g_main;
 thread_local int64_t tl_last_ns = BASE_NS;   // last CLOCK_REALTIME value handed to this thread
+thread_local bool tl_is_timer = false;       // this thread is the Timer<T> thread of the current execution
+std::atomic<bool> g_capture{false};          // the next thread created is the timer thread
 std::mutex g_out;
 
 long ms_of(int64_t ns) { return static_cast<long>((ns - BASE_NS) / 1000000); }
@@ -58,9 +62,29 @@ extern "C" int clock_nanosleep(clockid_t id, int flags, const struct timespec *r
 {
 	using fn = int (*)(clockid_t, int, const struct timespec *, struct timespec *);
 	static fn real = reinterpret_cast<fn>(dlsym(RTLD_NEXT, "clock_nanosleep"));
-	if (g_virtual.load() && !pthread_equal(pthread_self(), g_main))
+	if (g_virtual.load() && tl_is_timer)
 		g_sleeps.fetch_add(1);
 	return real(id, flags, req, rem);
+}
+
+namespace {
+struct Tramp { void *(*fn)(void *); void *arg; };
+void *tramp(void *p)
+{
+	Tramp t = *static_cast<Tramp *>(p);
+	delete static_cast<Tramp *>(p);
+	tl_is_timer = true;
+	return t.fn(t.arg);
+}
+}
+
+extern "C" int pthread_create(pthread_t *t, const pthread_attr_t *a, void *(*fn)(void *), void *arg)
+{
+	using cfn = int (*)(pthread_t *, const pthread_attr_t *, void *(*)(void *), void *);
+	static cfn real = reinterpret_cast<cfn>(dlsym(RTLD_NEXT, "pthread_create"));
+	if (g_capture.exchange(false))
+		return real(t, a, tramp, new Tramp{fn, arg});
+	return real(t, a, fn, arg);
 }
 
 namespace {
@@ -140,7 +164,14 @@ int main()
 			pj::Ev e("Reset");
 			e.i("gran", std::stoi(a[1])).i("now", ms_of(g_now_ns.load())).b("exact", a.size() >= 3 && a[2] == "exact");
 			emit(e);
+			g_capture.store(true);
 			timer->start();
+			if (g_capture.exchange(false))   // the thread was not created through pthread_create: settle() would never see a sleep
+			{
+				pj::Ev e2("Error");
+				e2.s("what", "timer thread not captured");
+				emit(e2);
+			}
 		}
 		else if (a[0] == "sched" && a.size() >= 5 && timer)
 		{
